@@ -17,6 +17,16 @@ Streams (all from run.seed):
                     called on that tensor alone; 2^k twins inside one history are checked on the SAME object;
   argforms          the numeric options as numpy / float / 0-d array / tf.constant and the input as
                     numpy / float64 / tf.Variable / nested list: same value => same output and scale;
+  consumer          the quantizers as WEIGHT quantizers of small QDense / QConv2D models (kernel and bias, one object
+                    shared by two layers; live 'auto' / 'auto_po2' / quantized_linear, or frozen with the post-training
+                    scale given as float32 / float64 ndarray, live.scale.numpy(), tf.constant, np.float32, 0-d array,
+                    nested list, python float): call, model_save_quantized_weights (the anchored consumer), read, call
+                    again, second export, other data, first tensor again, get_weight_scale,
+                    clone_model_and_freeze_auto_po2_scale.  After EVERY event the output of the event is judged by the
+                    clause oracle against the scale the object exposes NOW, q.scale of a frozen quantizer must still be
+                    the configured post-training scale, every instance attribute must be untouched, the object must
+                    equal a fresh twin on the same tensor, and the object state / result / exported entries are tied
+                    to the Lean event history (`qbRunEv`, QBEvent.save);
 Clause oracle on the REAL outputs (Python Fractions): y = rnd32(S * k * step) with integer |k| <= 2^(bits-1)-1,
 S constant on the SPEC groups and positive, 'auto' maps the group maximum to the top code and clips nothing,
 'auto_po2' scales are powers of two within the bounds, everything finite."""
@@ -852,7 +862,8 @@ def gen_consumers(rng, tier):
                         b=varied_tensor(rng, [cout], g=int(rng.integers(-3, 2))),
                         b_other=varied_tensor(rng, [cout], g=int(rng.integers(-2, 3))),
                         pts_exp=rng.integers(-3, 4, size=64), pts_rank=int(rng.integers(0, 3)),
-                        clone=bool(mode == "live" and qk == "qbits" and po2 and bias is None)))
+                        clone=bool(mode == "live" and qk == "qbits" and po2 and bias is None),
+                        clone_quantize=bool(sum(1 for o in out if o["clone"]) % 2 == 0)))
   return out
 
 
@@ -1037,7 +1048,9 @@ def run_consumer(Q, K, tf, c):
         cl = dict(err=None, layers=[])
         wcur = [[np.array(v, dtype=np.float32) for v in l.get_weights()] for l in layers]
         try:
-          nm, _ = U.clone_model_and_freeze_auto_po2_scale(model, quantize_model_weights=True)
+          # quantize_model_weights=True also exports the NEW model (frozen float64 scales) and self-checks the hardware
+          # weights; with False only the oracle below judges the frozen quantizers
+          nm, _ = U.clone_model_and_freeze_auto_po2_scale(model, quantize_model_weights=c["clone_quantize"])
           for l, ws in zip(layers, wcur):
             nq = nm.get_layer(l.name).get_quantizers()[0]
             d = dict(wc=ws[0], w=c["w"][0], nq_pts=np.asarray(nq.post_training_scale, dtype=np.float64),
@@ -1195,8 +1208,6 @@ def judge_consumer(run, c, res, outs, owners):
                        dict(hw=arr_desc(ev["hw"]), scales=None if ev["scales"] is None else arr_desc(ev["scales"])),
                        dict(hw=hw_m[:8], scales=None if ex["scales"] is None else [float(v) for v in A.dec(ex["scales"])][:8]))
       # ---- attributes: the model's public ones and every other instance attribute are untouched by the event
-      if model_attrs(qk, o["q"]) != cfg_attrs(qk, cfg):
-        pass    # read at the end (below), per object
       if prev is not None and "snap" in prev:
         skip = set() if pts is not None else {"scale", "quantization_scale"}
         ds = sorted(k for k in set(ev["snap"]) | set(prev["snap"])
@@ -1271,7 +1282,7 @@ def judge_consumer(run, c, res, outs, owners):
     d = cl["layers"][idx]
     lab = dict(base, cfg=c["cfg"], cloned_layer=idx, weights_at_clone=[float(v) for v in d["wc"].ravel()[:12]],
                tensor=[float(v) for v in d["w"].ravel()[:12]])
-    run.count("consumer:clone-route")
+    run.count("consumer:clone-route:quantize_model_weights=%s" % c["clone_quantize"])
     want = d["want_pts"].astype(np.float64)
     for name, got in (("post_training_scale", d["nq_pts"]), ("scale after the clone", d["obs0"]["sc"]),
                       ("scale after a call", d["obs1"]["sc"])):
@@ -1351,7 +1362,13 @@ def run(run, tier):
                        "then data / frozen post-training scale over ranks / alpha=None stand-alone call then "
                        "_set_trainable_parameter): every step judged by the clause oracle, tied to the Lean object model "
                        "and compared with a fresh twin (output, scale values and shape, attributes). Argument forms "
-                       "(numpy / float / 0-d array options, ndarray / float64 / Variable / list inputs). Every case has a "
+                       "(numpy / float / 0-d array options, ndarray / float64 / Variable / list inputs). CONSUMER histories: "
+                       "the quantizers as kernel / bias quantizers of QDense / QConv2D models (live, or frozen with the "
+                       "post-training scale in 8 argument forms; one object shared by two layers), events call -> "
+                       "model_save_quantized_weights -> call -> second export -> other data -> first tensor again -> "
+                       "get_weight_scale -> clone_model_and_freeze_auto_po2_scale, judged after every event (clause oracle "
+                       "against the scale exposed NOW, frozen scale kept, attributes untouched, fresh twin, Lean event "
+                       "history). Every case has a "
                        "data-dependent (or frozen) scale, so every case is non-trivial.")
   lines, impl = [], []
   for c in cases:
@@ -1423,6 +1440,8 @@ def run(run, tier):
                    "scale": float(s0[j]), "scale_twin": float(s1[j])}, mirrored=True)
   run.extra["cases"] = len(cases)
   run.extra["histories"] = {"objects": len(hists), "calls": sum(len(h["steps"]) for h in hists)}
+  run.extra["consumers"] = {"models": len(cons), "objects": sum(len(r["objs"]) for r in cons_res),
+                            "events": sum(len(o["events"]) for r in cons_res for o in r["objs"])}
   run.assumptions.append("2^k twins (fresh pairs and same-object pairs of a history) are judged only when every internal "
                          "scale is >= 2^-5 ('well above the epsilon floor': eps/s below the band of the logarithm "
                          "oracle), no band was touched and no exponent bound is configured")
